@@ -6,7 +6,8 @@ from lib.facts import callee, callee_def, op_local
 META = {
     "level": "other",
     "technique": "static analysis: table extraction from MIR switch terminators (token kind -> operator kind -> typing arm) compared with Gleam's operator typing and with the parser's binding-power table",
-    "rule": "Y1 every binary operator the parser accepts (infix_bp != None, except |>) has an operator kind in BinaryOp::op_details, "
+    "rule": "Y2 the call graph that forms the inference groups resolves a variable with an expression-level resolver (a local binder named "
+            "like a top-level function is not a call edge); Y1 every binary operator the parser accepts (infix_bp != None, except |>) has an operator kind in BinaryOp::op_details, "
             "and that kind reaches an arm of the inferencer that unifies the operands with each other and with the operand type Gleam "
             "prescribes, and yields Gleam's result type (Int/Float arithmetic, Int/Float comparison -> Bool, equality -> Bool, "
             "boolean -> Bool, <> -> String). One obligation per operator token.",
@@ -118,6 +119,9 @@ def arms(F):
 
 
 def run(F, res, tier):
+    # Y2: the call graph behind the inference groups resolves callee names like the inferencer does
+    from rules import c05
+    c05.resolver_provenance(F, res, only="ide::def::scope::dependency_order_query", rule="Y2")
     pure = teval.Pure(F)
     kinds = F.variants(SK)
     infix = [k for k in kinds if pure.call(SK + "::infix_bp", [("e", SK, k)])[2] == "Some"]
